@@ -8,7 +8,7 @@ from hypothesis import strategies as st
 
 from mv import gen_atoms, gen_geom, geom, model_atoms as M, ref_cif
 from mv.quiet import silenced
-from mv.runner import HypPart, Violation
+from mv.runner import FuzzPart, HypPart, Violation
 
 PROPERTY = "C15"
 RULE = ("(A) write->read->write: Hypothesis typed structures (1-8 atoms) with orthorhombic / tilted / arbitrarily "
@@ -346,4 +346,5 @@ def reader_oracle(c, stats):
 PARTS = [
     HypPart("write-read-write", lambda tier: rt_case(), rt_oracle, {"quick": 1500, "thorough": 12000}),
     HypPart("reader", lambda tier: reader_case(), reader_oracle, {"quick": 1500, "thorough": 12000}),
+    FuzzPart("coverage-guided-reader", "reader", runs=5000),
 ]
